@@ -124,6 +124,9 @@ func ParseSimple(dsn string, target interface{}) error {
 			}
 
 			for part[len(part)-1] != quot {
+				if len(dsnS) == 0 {
+					return fmt.Errorf("dsn: quotation is not terminated: %q", part)
+				}
 				part = strings.Join([]string{part, dsnS[0]}, " ")
 				dsnS = dsnS[1:]
 			}
@@ -140,7 +143,8 @@ func ParseSimple(dsn string, target interface{}) error {
 		// Remove quotation from value
 		if value != "" {
 			for _, quot := range quotations {
-				if value[0] == quot && value[len(value)-1] == quot {
+				// A value consisting of a single quotation mark isn't quoted.
+				if len(value) >= 2 && value[0] == quot && value[len(value)-1] == quot {
 					value = value[1 : len(value)-1]
 				}
 			}
